@@ -31,3 +31,7 @@ def run(ctx):
     # trivially sound ones
     import rules.C18 as C18
     ctx.step(C18.trait_defaults, ctx, R43)
+    # a borrowed automaton (`&aut`) and the Map / Set front ends of the bounded searches behave like the thing they wrap:
+    # R18.3 (&T forwards every method to its namesake) and R03.2 (the 16 wrapper setters delegate name for name)
+    ctx.step(C18.r18_3, ctx)
+    ctx.step(C03.r03_2, ctx)
